@@ -228,8 +228,20 @@ fn htlc_timeout_probe(a: &mut Vec<i128>) -> String {
 /// offered by node 0 or received by it) is saved, the channel moves on (the HTLC is claimed, revoking that
 /// commitment), and the saved transaction is then confirmed on node 1's chain. Output: 1 if node 1 broadcasts a
 /// transaction spending the HTLC's output of the revoked commitment (always 0 for a dust HTLC: there is no output).
+/// With has_output the scenario runs twice: a 3 000 sat HTLC (an output in the middle) and a 42 000 sat HTLC, worth
+/// more than either balance and therefore the LAST output (BIP 69 order); both must be claimed.
 fn revoked_htlc_claim_probe(a: &mut Vec<i128>) -> String {
 	let (has_output, offered) = (a[0] != 0, a[1] != 0);
+	let (claimed, has_vout) = revoked_htlc_claim_scenario(has_output, offered, false);
+	if !has_output {
+		return format!("{} {}", claimed as u8, has_vout as u8);
+	}
+	// the same with an HTLC worth more than either balance: its output is the LAST output of the revoked commitment
+	let (claimed_big, has_vout_big) = revoked_htlc_claim_scenario(true, offered, true);
+	format!("{} {}", (claimed && claimed_big) as u8, (has_vout && has_vout_big) as u8)
+}
+
+fn revoked_htlc_claim_scenario(has_output: bool, offered: bool, big: bool) -> (bool, bool) {
 	let chanmon_cfgs = create_chanmon_cfgs(2);
 	let node_cfgs = create_node_cfgs(2, &chanmon_cfgs);
 	let node_chanmgrs = create_node_chanmgrs(2, &node_cfgs, &[None, None]);
@@ -240,7 +252,10 @@ fn revoked_htlc_claim_probe(a: &mut Vec<i128>) -> String {
 	let chan_id = chan.2;
 	// some balance on both sides first, so that either direction can carry the HTLC
 	send_payment(&nodes[0], &[&nodes[1]], 10_000_000);
-	let amt = if has_output { 3_000_000 } else { 100_000 };
+	if big && !offered {
+		send_payment(&nodes[0], &[&nodes[1]], 50_000_000);
+	}
+	let amt = if big { 42_000_000 } else if has_output { 3_000_000 } else { 100_000 };
 	let (src, dst) = if offered { (0, 1) } else { (1, 0) };
 	let (preimage, _, _, _) = route_payment(&nodes[src], &[&nodes[dst]], amt);
 	let revoked = {
@@ -249,6 +264,9 @@ fn revoked_htlc_claim_probe(a: &mut Vec<i128>) -> String {
 	};
 	claim_payment(&nodes[src], &[&nodes[dst]], preimage);
 	let vout = revoked.output.iter().position(|o| o.value.to_sat() == amt / 1000);
+	if big {
+		assert_eq!(vout, Some(revoked.output.len() - 1), "the big HTLC is meant to be the last output");
+	}
 	nodes[1].tx_broadcaster.txn_broadcasted.lock().unwrap().clear();
 	mine_transaction(&nodes[1], &revoked);
 	let txid = revoked.compute_txid();
@@ -258,9 +276,8 @@ fn revoked_htlc_claim_probe(a: &mut Vec<i128>) -> String {
 		}),
 		None => false,
 	};
-	let res = format!("{} {}", claimed as u8, vout.is_some() as u8);
 	core::mem::forget(nodes);
-	res
+	(claimed, vout.is_some())
 }
 
 /// counterparty_claim_probe <has_output 0/1> <offered_by_counterparty 0/1> <preimage_known 0/1>
@@ -2690,6 +2707,84 @@ fn prev_config_battery(_a: &mut Vec<i128>) -> String {
 	format!("{} {}", bad, total)
 }
 
+/// early_fail_back_probe <htlc only in the peer's previous commitment 0/1>
+/// A -> B -> C with a routed payment that C never resolves; B force-closes B-C when the outbound HTLC has timed out but
+/// its commitment never confirms. With the flag, C first fails the HTLC (update_fail_htlc + commitment_signed), B answers
+/// (revoke_and_ack + commitment_signed) and C goes silent: the HTLC then survives only in C's PREVIOUS, unrevoked
+/// commitment. Blocks are connected on B one at a time; output: `<inbound expiry - height>` at the first block after
+/// which B fails the HTLC back to A (an HTLCHandlingFailed event), or `-1` if it has not done so when the inbound HTLC
+/// expires. B must give up LATENCY_GRACE_PERIOD_BLOCKS (3) blocks before the inbound expiry.
+fn early_fail_back_probe(a: &mut Vec<i128>) -> String {
+	use lightning::events::Event;
+	use lightning::ln::msgs::ChannelMessageHandler;
+	let prev_only = a[0] != 0;
+	let chanmon_cfgs = create_chanmon_cfgs(3);
+	let node_cfgs = create_node_cfgs(3, &chanmon_cfgs);
+	let legacy_cfg = test_legacy_channel_config();
+	let node_chanmgrs = create_node_chanmgrs(3, &node_cfgs, &[Some(legacy_cfg.clone()), Some(legacy_cfg.clone()), Some(legacy_cfg)]);
+	let nodes = create_network(3, &node_cfgs, &node_chanmgrs);
+	let node_b_id = nodes[1].node.get_our_node_id();
+	let node_c_id = nodes[2].node.get_our_node_id();
+	let chan_1 = create_announced_chan_between_nodes(&nodes, 0, 1);
+	let _chan_2 = create_announced_chan_between_nodes(&nodes, 1, 2);
+	for n in 0..3 {
+		connect_blocks(&nodes[n], 2 * CHAN_CONFIRM_DEPTH + 1 - nodes[n].best_block_info().1);
+	}
+	let (_, payment_hash, ..) = route_payment(&nodes[0], &[&nodes[1], &nodes[2]], 3_000_000);
+	let inbound_expiry = nodes[1]
+		.node
+		.list_channels()
+		.iter()
+		.find(|c| c.channel_id == chan_1.2)
+		.and_then(|c| c.pending_inbound_htlcs.first().map(|h| h.cltv_expiry))
+		.expect("inbound HTLC");
+	if prev_only {
+		nodes[2].node.fail_htlc_backwards(&payment_hash);
+		nodes[2].node.process_pending_htlc_forwards();
+		let _ = nodes[2].node.get_and_clear_pending_events();
+		check_added_monitors(&nodes[2], 1);
+		let cs_updates = get_htlc_update_msgs(&nodes[2], &node_b_id);
+		nodes[1].node.handle_update_fail_htlc(node_c_id, &cs_updates.update_fail_htlcs[0]);
+		nodes[1].node.handle_commitment_signed_batch_test(node_c_id, &cs_updates.commitment_signed);
+		check_added_monitors(&nodes[1], 1);
+		let _ = get_revoke_commit_msgs(&nodes[1], &node_c_id); // never delivered
+	}
+	let mut failed_at: i128 = -1;
+	while nodes[1].best_block_info().1 < inbound_expiry {
+		connect_blocks(&nodes[1], 1);
+		let _ = nodes[1].node.get_and_clear_pending_msg_events();
+		nodes[1].node.process_pending_htlc_forwards();
+		let evs = nodes[1].node.get_and_clear_pending_events();
+		let _ = nodes[1].node.get_and_clear_pending_msg_events();
+		nodes[1].chain_monitor.added_monitors.lock().unwrap().clear();
+		if evs.iter().any(|e| matches!(e, Event::HTLCHandlingFailed { .. })) {
+			failed_at = inbound_expiry as i128 - nodes[1].best_block_info().1 as i128;
+			break;
+		}
+	}
+	nodes[1].tx_broadcaster.txn_broadcasted.lock().unwrap().clear();
+	core::mem::forget(nodes);
+	format!("{}", failed_at)
+}
+
+/// early_fail_back_battery: early_fail_back_probe 0 and 1; both must report 3. Output: `<bad> <total>`.
+fn early_fail_back_battery(_a: &mut Vec<i128>) -> String {
+	let (mut bad, mut total) = (0u32, 0u32);
+	for mode in [0i128, 1] {
+		total += 1;
+		match catch_unwind(AssertUnwindSafe(|| early_fail_back_probe(&mut vec![mode]))) {
+			Ok(v) if v == "3" => {},
+			other => {
+				bad += 1;
+				if std::env::var("ORACLE_DEBUG").is_ok() {
+					eprintln!("early_fail_back_battery: mode {}: {:?} (wanted 3)", mode, other.ok());
+				}
+			},
+		}
+	}
+	format!("{} {}", bad, total)
+}
+
 fn main() {
 	if std::env::var("ORACLE_DEBUG").is_err() { std::panic::set_hook(Box::new(|_| {})); }
 	let stdin = std::io::stdin();
@@ -2705,6 +2800,8 @@ fn main() {
 		let mut args: Vec<i128> = it.map(|x| x.parse::<i128>().expect("bad int")).collect();
 		let r = catch_unwind(AssertUnwindSafe(|| match name.as_str() {
 			"forward_probe" => forward_probe(&mut args),
+			"early_fail_back_probe" => early_fail_back_probe(&mut args),
+			"early_fail_back_battery" => early_fail_back_battery(&mut args),
 			"prev_config_probe" => prev_config_probe(&mut args),
 			"prev_config_battery" => prev_config_battery(&mut args),
 			"own_csv_probe" => own_csv_probe(&mut args),
